@@ -171,12 +171,8 @@ func mcDeliver(m *mcNode, d *mcDelivery) *common.Snapshot {
 		s.AddTransaction(h)
 	}
 	s.Hash = s.PayloadHash()
-	_, publics := chain.ConsensusKeys(s.RoundNumber, ts)
-	threshold := m.Node.ConsensusThreshold(ts, true)
-	idx := make([]int, threshold)
-	for i := range idx {
-		idx[i] = i
-	}
+	ids, publics := chain.ConsensusKeys(s.RoundNumber, ts)
+	idx := mcSignerSet(ids, chainId, m.Node.ConsensusThreshold(ts, true))
 	s.Signature = mcDetCosiSign(m.Net, publics, idx, s.Hash)
 	d.Hash = s.Hash
 	err := chain.cosiHandleFinalization(&CosiAction{Action: CosiActionFinalization, PeerId: m.Net.NodeIds[(d.Chain+8)%7], Snapshot: s, SnapshotHash: s.Hash})
@@ -280,3 +276,34 @@ func (r *mcCrashRun) Crash() {
 func mcRemoveAll(dir string) { _ = os.RemoveAll(dir) }
 
 func mcSubdir(base string, i int) string { return filepath.Join(base, fmt.Sprintf("run-%d", i)) }
+
+// mcSignerSet picks threshold consensus indexes that include the proposer (the
+// chain's own node always signs its snapshots; WriteRoundWork asserts it).
+func mcSignerSet(ids []crypto.Hash, proposer crypto.Hash, threshold int) []int {
+	var idx []int
+	for i, id := range ids {
+		if id == proposer {
+			idx = append(idx, i)
+		}
+	}
+	for i := range ids {
+		if len(idx) >= threshold {
+			break
+		}
+		if ids[i] != proposer {
+			idx = append(idx, i)
+		}
+	}
+	sortInts(idx)
+	return idx
+}
+
+func sortInts(a []int) {
+	for i := range a {
+		for j := i + 1; j < len(a); j++ {
+			if a[j] < a[i] {
+				a[i], a[j] = a[j], a[i]
+			}
+		}
+	}
+}
